@@ -232,7 +232,12 @@ func (e *ElectrumFacade) Notify(height int32) {
 	e.mu.Unlock()
 	e.stamp("header", e.C.VersionNow())
 	for _, s := range subs {
-		s <- &goelectrum.SubscribeHeadersResult{Height: height}
+		// never block the scenario on a subscriber that stopped reading (killed incarnation): with 64
+		// notifications already queued this one is dropped, a later tip supersedes it
+		select {
+		case s <- &goelectrum.SubscribeHeadersResult{Height: height}:
+		default:
+		}
 	}
 }
 
